@@ -420,6 +420,32 @@ def check(rep, tier, seed):
     for i in range(0, len(items), 1500):
         files.append(("indexed", [imports, "(import (chibi string) (only (chibi) string-cursor-ref substring-cursor string-index->cursor string-cursor->index string-cursor-next string-cursor-prev string-cursor-end subvector arithmetic-shift))", POOL_SETUP], items[i:i + 1500], meta[i:i + 1500]))
 
+    # numeric operations x numeric pool, full cross product (division by exact and inexact zero, NaN, infinities, ...)
+    numpool = ["0", "1", "-1", "0.0", "-0.0", "1.5", "+inf.0", "-inf.0", "+nan.0", "1/2", "-7/3", "4611686018427387904",
+               "-4611686018427387904", "(expt 2 200)", "1+2i", "0.0+0.0i"]
+    numops2 = ["quotient", "remainder", "modulo", "/", "floor/", "truncate/", "floor-quotient", "floor-remainder",
+               "truncate-quotient", "truncate-remainder", "expt", "gcd", "lcm", "atan", "exact-integer-sqrt", "max", "<", "=",
+               "number->string", "arithmetic-shift", "exact-rational?", "rationalize"]
+    numops1 = ["exact", "inexact", "sqrt", "exact-integer-sqrt", "log", "exp", "floor", "round", "truncate", "numerator",
+               "denominator", "abs", "magnitude", "angle", "number->string", "exact-integer?", "nan?", "square"]
+    items, meta = [], []
+    for op in numops2:
+        for a in numpool:
+            for b_ in numpool:
+                items.append(("eval", "(%s %s %s)" % (op, a, b_)))
+                meta.append(("numeric", op))
+    for op in numops1:
+        for a in numpool:
+            items.append(("eval", "(%s %s)" % (op, a)))
+            meta.append(("numeric", op))
+    for tx in ["(string->number \"100000000000000000000/3e2\")", "(string->number \"18446744073709551616/3.\")",
+               "(string->number \"1/0\")", "(string->number \"18446744073709551616/0\")", "(string->number \"1e35301376\")",
+               "(string->number \"#e1e400\")", "(string->number \"1/2/3\")", "(string->number \"+i\" 36)"]:
+        items.append(("eval", tx))
+        meta.append(("numeric", "string->number"))
+    for i in range(0, len(items), 250):
+        files.append(("numeric", [imports, "(import (only (chibi) arithmetic-shift exact-rational?))"], items[i:i + 250], meta[i:i + 250]))
+
     # ---- (a) reader, (b) evaluator -----------------------------------------------------------------
     nread, nform = (1500, 1200) if tier == "quick" else (120000, 60000)
     rin = reader_inputs(rng, nread)
@@ -486,6 +512,33 @@ def check(rep, tier, seed):
                 sig = {"check": "process-died", "how": ev["how"], "family": f2, "name": nm}
             rep.violation(sig, {"item": item, "mode": items[idx][0] if idx is not None and idx < len(items) else None,
                                 "stderr": ev["stderr"][-1800:], "sanitizer": san})
+    # ---- deep nesting, judged on the unsanitized (hooks) build with the default 8 MB C stack --------------------------
+    bh = B.ensure("hooks")
+    rep.builds.add("hooks")
+    exe_h = bh.native("evalseq")
+    deep = []
+    for depth in ((10 ** 4, 10 ** 5, 2 * 10 ** 5) if tier == "quick" else (10 ** 4, 10 ** 5, 2 * 10 ** 5, 10 ** 6)):
+        deep.append(("read", "parens", depth, "(" * depth + "x" + ")" * depth))
+        deep.append(("read", "vectors", depth, "#(" * depth + ")" * depth))
+        deep.append(("read", "quotes", depth, "'" * depth + "x"))
+        deep.append(("evalscratch", "quoted-parens", depth, "'" + "(" * depth + "x" + ")" * depth))
+        deep.append(("evalscratch", "nested-calls", depth, "(car " * depth + "'(1)" + ")" * depth))
+        deep.append(("load", "parens", depth, "(" * depth + "x" + ")" * depth))
+
+    def run_deep(t):
+        mode, shape, depth, text = t
+        recs, fatal, p0 = run_items(bh, exe_h, d, "deep-%s-%s-%d" % (mode, shape, depth), [imports], [(mode, text)], timeout=300)
+        return t, recs, fatal
+
+    for (mode, shape, depth, text), recs, fatal in R.pmap(run_deep, deep):
+        rep.case(("deep-nesting", mode, shape, depth))
+        for ev in fatal:
+            if ev["how"] == "timeout":
+                rep.inconc("watchdog", "deep %s %s %d" % (mode, shape, depth))
+                continue
+            rep.violation({"check": "process-died", "family": "deep-nesting", "how": ev["how"], "via": mode, "shape": shape,
+                           "depth_class": ">=1e5" if depth >= 10 ** 5 else "<1e5"},
+                          {"mode": mode, "shape": shape, "depth": depth, "stderr": ev["stderr"][-600:]})
     rep.extra.update(outcomes=outcomes, probe_evaluations=probes, r7rs_names=len(r7names), vm_primitives=len(ops),
                      pool_values=len(POOL), item_files=len(files),
                      sanitizer="ASan + in-heap red zones (SEXP_GC_PAD=32, poisoned free chunks) + UBSan bounds,vla-bound,return,unreachable,null")
